@@ -194,7 +194,7 @@ func propsOr(a, b []string) []string {
 }
 
 func (fr *Frame) envAt(st *State, old *Heap, what string) *Env {
-	e := &Env{vc: fr.vc, fr: fr, vars: map[string]Val{}, heap: st.heap, old: old, now: st.now, what: what}
+	e := &Env{vc: fr.vc, fr: fr, vars: map[string]Val{}, heap: st.heap, old: old, now: st.now, what: what, reach: fr.curR}
 	if fr.fn.Pkg != nil {
 		e.pkg = fr.fn.Pkg.Pkg
 	} else if fr.top.contract != nil {
